@@ -757,6 +757,7 @@ struct GenCfg
     bool has_partner = false, tracked = false, planar = false, stateful = false;
     int nchan = 1;
     int chan_align = 1;
+    bool any = false; // any_image kind: every op carries the alternative to construct
 };
 
 inline Json gen_plan(uint64_t seed, std::string const& profile, std::string const& kind, std::string const& alloc, GenCfg const& cfg)
@@ -862,6 +863,7 @@ inline Json gen_plan(uint64_t seed, std::string const& profile, std::string cons
             }
             else { o.set("op", "sweep"); o.set("dst", (int)r.below(4)); sweep_args(o); o.set("fam", 1); }
         }
+        if (cfg.any) o.set("type", (int)r.below(3));
         ops.push(o);
     }
     plan.set("ops", ops);
